@@ -49,6 +49,10 @@ impl AmlSink for Logging {
 }
 
 /// all sink checks on one object; returns the number of distinct sink entry points used
+/// objects above 16 KiB go through the (quadratic) generic-table sink in the directed phase and in
+/// replays only, not in the generated phase
+pub static LARGE_THROUGH_TABLE_SINK: std::sync::atomic::AtomicBool = std::sync::atomic::AtomicBool::new(false);
+
 pub fn check_object(subject: &str, o: &dyn Aml, raw: Option<&[u8]>, out: &mut Vec<Violation>) -> u32 {
     let v = |kind: &str, detail: &str, info: String| Violation::new("C14", subject, kind, detail.to_string(), info);
     let mut a = Vec::new();
@@ -79,6 +83,10 @@ pub fn check_object(subject: &str, o: &dyn Aml, raw: Option<&[u8]>, out: &mut Ve
     }
     if u8sum(o) != s {
         out.push(v("byte-sum-helper", "u8sum != arithmetic sum", format!("u8sum={} sum={}", u8sum(o), s)));
+    }
+    // (the generic table re-sums itself on every byte it receives: quadratic)
+    if a.len() > 16_384 && !LARGE_THROUGH_TABLE_SINK.load(std::sync::atomic::Ordering::Relaxed) {
+        return lg.calls.iter().filter(|c| **c > 0).count() as u32;
     }
     let mut t = sdt::Sdt::new(*b"SINK", 36, 1, *b"OEMIDX", *b"TABLEID0", 1);
     o.to_aml_bytes(&mut t);
@@ -307,6 +315,7 @@ fn default_objects(out: &mut Vec<Violation>) -> u64 {
 }
 
 pub fn run(ctx: &Ctx) {
+    LARGE_THROUGH_TABLE_SINK.store(true, std::sync::atomic::Ordering::Relaxed);
     {
         let mut vs = Vec::new();
         let n = default_objects(&mut vs);
@@ -336,6 +345,7 @@ pub fn run(ctx: &Ctx) {
         }
     }
     ctx.add_nontrivial(fps);
+    LARGE_THROUGH_TABLE_SINK.store(false, std::sync::atomic::Ordering::Relaxed);
     run_pt(
         ctx,
         Pt {
@@ -364,6 +374,7 @@ pub fn run(ctx: &Ctx) {
 }
 
 pub fn replay(case: &serde_json::Value) -> Vec<Violation> {
+    LARGE_THROUGH_TABLE_SINK.store(true, std::sync::atomic::Ordering::Relaxed);
     if case.as_str() == Some("default-objects") {
         let mut vs = Vec::new();
         default_objects(&mut vs);
